@@ -205,6 +205,22 @@ CLAIMED = {
              "of domain; children with equal starts (unordered in SQL) are not generated.",
         technique="Coq proof (slice/length arithmetic, BED12 field theorems) + differential correspondence incl. pyfaidx",
         design="4 (C18)"),
+    "C14": dict(
+        text="Coq theorems (Properties/C14.v, 10 statements, closed under the global context) about the model of "
+             "_FileIterator._custom_iter and of the directives list object create_db shares with the iterator: before any "
+             "##FASTA / '>' line every line contributes by its kind, in file order ('##x' -> directive 'x', '#...' and blank -> "
+             "nothing, anything else -> a feature); nothing at or after ##FASTA or a '>' header is parsed; peeking n sees exactly "
+             "the first n+1 features and a prefix of the directives; with the list cleared in place the database creator ends up "
+             "with ALL directives for every checklines value, while the pre-fix rebinding provably loses the ones after the "
+             "window (refutation theorem). Tied to iterators.py/create.py/interface.py by every interleaving of 7 line kinds up "
+             "to length 5 (thorough 6) and long random files, checklines 0/1/2/10/40, LF and CRLF, path and from_string input, "
+             "comparing iterated features, DataIterator.directives after construction and after iteration, db.directives after "
+             "import and after reopening the file, inside Coq.",
+        note="Trusted: Coq kernel + vm_compute; Model/Iter.v hand-written (universal-newline reading, rstrip, prefix tests, "
+             "generator suspension point, list-object sharing), tied by the correspondence. Feature lines are simple lines whose "
+             "printed form equals the line. Files with lone-CR line ends or lines starting with white space are out of domain.",
+        technique="Coq proof (scan = per-line classification before FASTA, peek prefix, shared-list flow incl. refutation of the rebinding variant) + exhaustive small-scope differential correspondence",
+        design="4 (C14)"),
 }
 
 PENDING_REASON = "machinery for this property is not built yet in this revision (planned, see DESIGN.md section 4/9); not claimed until its check exists"
